@@ -1,4 +1,5 @@
 import Netpoll.Buf.Refine.Release
+import Netpoll.Buf.Refine.WriteLib
 /-
 Close, resetTail, book/bookAck.
 -/
@@ -82,9 +83,6 @@ theorem R.no_pending {b : LB α} {q : Q α} (hR : R b q) (h0 : q.mallocLen = 0) 
   rw [LB.abs_eq] at this
   rw [this]
   exact List.eq_nil_of_length_eq_zero h0
-
-theorem newNode_zero (cfg : Cfg) : (newNode cfg 0 : Node α) = { unmanaged := true } := by
-  simp [newNode]
 
 /-! ### resetTail -/
 
